@@ -14,7 +14,10 @@ Layout
 * §5 `marginal_split`: over a commutative monoid, a chunk function additive over concatenation,
   any covering spans and any permutation of the chunk results fold to the value on the whole;
 * §6 the concrete `_balance` pipeline is such a function (`Local` filters, `margFn_append`), the
-  array form the code reduces (`balanceReduce_eq_whole`), and `balance_data_only`.
+  array form the code reduces (`balanceReduce_eq_whole`), and `balance_data_only`;
+* §7 histories of one process (`Step`, `stored`, `observe`): a run returns `eval` of the data stored at
+  its URI at that moment whatever was written, replaced or run before (`observe_append_run`,
+  `run_after_write`, `run_data_only`, `run_repeat`).
 
 Core Lean only (the monoid laws are explicit hypotheses on `add`/`zero`).
 
@@ -903,5 +906,81 @@ example : chromPixelRange [0, 0, 1] exPx 0 = (0, 5) ∧ chromPixelRange [0, 0, 1
 -- covering hypothesis is what rules it out
 example : balanceReduce intOps 3 [0, 0, 1] exPx exFilters [(0, 2), (2, 4)] [0, 1]
     ≠ wholeMarginal intOps 3 [0, 0, 1] exPx exFilters 0 5 := by decide
+
+/-! ## §7 histories: a run reads the data stored at that moment, and nothing else -/
+
+theorem storedFrom_append {δ : Type} (w : Nat → Option δ) (h : List (Step δ)) (s : Step δ) :
+    (h ++ [s]).foldl storeStep w = storeStep (h.foldl storeStep w) s := by
+  simp [List.foldl_append]
+
+/-- after a write the URI holds what was written, whatever the process did before -/
+theorem stored_append_write {δ : Type} (h : List (Step δ)) (u : Nat) (d : δ) :
+    stored (h ++ [.write u d]) u = some d := by
+  simp [stored, List.foldl_append, storeStep]
+
+/-- a write leaves every other URI alone -/
+theorem stored_append_write_ne {δ : Type} (h : List (Step δ)) (u v : Nat) (d : δ) (hv : v ≠ u) :
+    stored (h ++ [.write u d]) v = stored h v := by
+  simp [stored, List.foldl_append, storeStep, hv]
+
+/-- a run changes nothing that is stored -/
+theorem stored_append_run {δ : Type} (h : List (Step δ)) (u : Nat) :
+    stored (h ++ [.run u]) = stored h := by
+  simp [stored, List.foldl_append, storeStep]
+
+theorem observeFrom_append {δ ρ : Type} (eval : δ → ρ) (h₁ h₂ : List (Step δ)) (w : Nat → Option δ) :
+    observeFrom eval w (h₁ ++ h₂)
+      = observeFrom eval w h₁ ++ observeFrom eval (h₁.foldl storeStep w) h₂ := by
+  induction h₁ generalizing w with
+  | nil => simp [observeFrom]
+  | cons s t ih =>
+    cases s with
+    | write u d => simp [observeFrom, ih, List.foldl_cons]
+    | run u => simp [observeFrom, ih, List.foldl_cons, storeStep]
+
+/-- **the result of a run is `eval` of the data stored at that moment**: whatever the history `h`
+(other coolers visited, earlier contents of the same URI, earlier runs), a run on `u` appends
+exactly `eval` of what `u` holds now, and earlier outputs are untouched -/
+theorem observe_append_run {δ ρ : Type} (eval : δ → ρ) (h : List (Step δ)) (u : Nat) :
+    observe eval (h ++ [.run u]) = observe eval h ++ [(stored h u).map eval] := by
+  simp [observe, observeFrom_append, observeFrom, stored]
+
+/-- writing `d` at `u` and running `u` returns `eval d` after every history -/
+theorem run_after_write {δ ρ : Type} (eval : δ → ρ) (h : List (Step δ)) (u : Nat) (d : δ) :
+    observe eval (h ++ [.write u d, .run u]) = observe eval h ++ [some (eval d)] := by
+  have : h ++ [Step.write u d, Step.run u] = (h ++ [.write u d]) ++ [.run u] := by simp
+  rw [this, observe_append_run, stored_append_write]
+  simp [observe, observeFrom_append, observeFrom]
+
+/-- **data only**: two processes with different pasts whose URI `u` holds the same content get the
+same result from a run on `u` -/
+theorem run_data_only {δ ρ : Type} (eval : δ → ρ) (h₁ h₂ : List (Step δ)) (u : Nat)
+    (hs : stored h₁ u = stored h₂ u) :
+    (observe eval (h₁ ++ [.run u])).getLast? = (observe eval (h₂ ++ [.run u])).getLast? := by
+  simp [observe_append_run, hs]
+
+/-- repeated runs return the same value -/
+theorem run_repeat {δ ρ : Type} (eval : δ → ρ) (h : List (Step δ)) (u : Nat) :
+    observe eval (h ++ [.run u, .run u])
+      = observe eval h ++ [(stored h u).map eval, (stored h u).map eval] := by
+  have : h ++ [Step.run u, Step.run u] = (h ++ [.run u]) ++ [.run u] := by simp
+  rw [this, observe_append_run, observe_append_run, stored_append_run]
+  simp
+
+/-- one entry per run step -/
+theorem observe_length {δ ρ : Type} (eval : δ → ρ) (h : List (Step δ)) :
+    (observe eval h).length = h.countP (fun s => match s with | .run _ => true | .write _ _ => false) := by
+  unfold observe
+  generalize (emptyStore : Nat → Option δ) = w
+  induction h generalizing w with
+  | nil => simp [observeFrom]
+  | cons s t ih => cases s <;> simp [observeFrom, ih]
+
+-- non-vacuity: balance URI 0 holding content 7, replace it by 9 (URI 1 visited in between), balance
+-- again: the second result is that of 9, the first that of 7
+example : observe (fun d : Nat => d * d)
+    [.write 0 7, .run 0, .write 1 5, .run 1, .write 0 9, .run 0, .run 2]
+    = [some 49, some 25, some 81, none] := by decide
+example : stored ([.write 0 7, .run 0, .write 0 9] : List (Step Nat)) 0 = some 9 := by decide
 
 end Cooler.C11
